@@ -52,6 +52,9 @@ def num_of_bool(b: Bool):
     return Num(z3.If(b.z, z3.IntVal(1), z3.IntVal(0)), True)
 
 
+ITE_HOOKS = []
+
+
 def ite_val(c, a, b):
     """z3 If lifted over values of the same kind."""
     if isinstance(c, bool):
@@ -82,6 +85,10 @@ def ite_val(c, a, b):
         if la is not None and la == lb:
             fa, fb = snapshot(a), snapshot(b)
             return Vec(la, lambda k: ite_val(c, fa(k), fb(k)), kind=a.kind, elem=a.elem)
+    for hook in ITE_HOOKS:
+        r = hook(c, a, b)
+        if r is not None:
+            return r
     if isinstance(a, (Mat, NoneV, Obj, Opaque, IteVal)) or isinstance(b, (Mat, NoneV, Obj, Opaque, IteVal)) or type(a).__name__ == "Sparse" or type(b).__name__ == "Sparse":
         return IteVal(c, a, b)
     raise Unsupported(f"ite over {type(a).__name__}/{type(b).__name__}")
